@@ -137,7 +137,8 @@ def gen_plan(prop, run_seed, tier):
         if op == "construct":
             st["kind"] = s.choice(["mixed", "obs_no_mask", "no_obs", "mask_no_obs"])
         if op == "perm_ctor":
-            st["extra"] = s.random() < 0.4
+            u = s.random()
+            st["extra"] = "huge" if u < 0.025 else (u < 0.4)
         steps.append(st)
     plan["steps"] = steps
     return plan
@@ -853,7 +854,16 @@ def op_perm_ctor(ctx, st, t):
             seen.add(k)
             uniq.append((n, d))
     samples = sorted({str(x) for x in np.asarray(s.sample_names).tolist()})
-    if st.get("extra"):
+    if st.get("extra") == "huge":
+        # a small screen inside a very large experiment space: ids beyond what two bytes hold
+        n_extra = rnd.choice([33000, 33000, 66000])
+        samples += [f"zz_space_s{k}" for k in range(n_extra) if f"zz_space_s{k}" not in samples]
+        for k in range(n_extra + 1):
+            cand = (f"zz_space_t{k}", 1.0)
+            if ref.tkey(*cand) not in seen:
+                uniq.append(cand)
+        ctx.stats.probe("huge_experiment_space")
+    elif st.get("extra"):
         for k in range(rnd.randint(1, 3)):
             cand = (f"zz_extra{k}", 1.0 + k)
             if ref.tkey(*cand) not in seen:
@@ -1291,8 +1301,14 @@ def _c03_judge(ctx, live, when, trigger, s, sd, td, sd0, td0):
                           f"simulation assigned ({want_s},{want_t})")
             break
     if ctx.theta is not None and len(live.rows) and ctx.theta.V0.shape[0] > 0 and ctx.theta.W0.shape[0] > 0:
-        want_ids_s = [sd0[r[0]] for r in live.rows]
-        want_ids_t = [[td0[t] for t in r[1]] for r in live.rows]
+        want_ids_s = [sd0.get(r[0]) for r in live.rows]
+        want_ids_t = [[td0.get(t) for t in r[1]] for r in live.rows]
+        if any(x is None for x in want_ids_s) or any(x is None for t in want_ids_t for x in t):
+            i = next(k for k, (a, b) in enumerate(zip(want_ids_s, want_ids_t)) if a is None or any(x is None for x in b))
+            ctx.violation("C03.row-name-unknown", trigger,
+                          f"{live.tag} screen {when}: row {i} {live.rows[i][:2]!r} carries a sample / (treatment, dose) the "
+                          f"prepared simulation never had (names were rewritten on the way)")
+            return
         view = ref.IdView(want_ids_s, want_ids_t)
         want = ctx.theta.predict_conditional_mean(view)
         want_v = ctx.theta.predict_viability(view)
